@@ -288,6 +288,17 @@ def check_obligations(props_module):
     return res
 
 
+def leanchecker(module, timeout=1800):
+    """`lake env leanchecker <Module>`: Lean's independent re-checker replays the module's .olean in a fresh kernel."""
+    if shutil.which("leanchecker") is None:
+        return True, "leanchecker not installed (skipped)"
+    try:
+        p = subprocess.run(["lake", "env", "leanchecker", module], cwd=LEAN, stdout=subprocess.PIPE, stderr=subprocess.STDOUT, text=True, errors="replace", timeout=timeout)
+    except subprocess.TimeoutExpired:
+        return False, "leanchecker timeout"
+    return p.returncode == 0, p.stdout
+
+
 # ----------------------------------------------------------------------------- known findings / verdict
 
 def load_known():
